@@ -12,7 +12,7 @@ from vlib import Infra
 FAM = {"C15": "P15", "C16": "P16"}
 ASSUMPTIONS = [
     "pools are real *grpc.ClientConn values dialled through the API's DialFunc over in-process bufconn servers; an outage is a stopped server, recovery a restarted one",
-    "events are recorded after settling: every open pool connection is READY iff its endpoint is up and routes are stable for 15 ms (bound 5 s, C15's 'bounded time')",
+    "events are recorded after settling: every open pool connection is READY iff its endpoint is up and routes are stable for 15 ms (bound 3 s, C15's 'bounded time')",
     "MultiEndpoints inside GCPMultiEndpoint run without recovery timeout / switching delay here (timers are C13/C14's subject)",
     "RPCs are sequential in this pipeline (concurrent RPC vs UpdateMultiEndpoints is C10's subject)",
 ]
